@@ -573,7 +573,7 @@ func tplNames(r *vk.Run) []string {
 
 func TestCheck(t *testing.T) {
 	vk.UseT(t)
-	r := vk.Start("C01", "model_checking", 150*time.Second, 25*time.Minute)
+	r := vk.Start("C01", "model_checking", 175*time.Second, 25*time.Minute)
 	defer vk.CleanScratch()
 	fams := []family{
 		{Name: "single", MTB: 6},
